@@ -13,6 +13,7 @@ import string
 from common import Check, cstr, clist, setup_impl_path, ser_str, ser_list, ser_opt, ser_bool, pack, run_packed_cases
 
 ALPHA = ["a", "-", "_", "1", "/", ":", ".", "\n", " "]
+ALPHA2 = ["a", "\u00e9", "\u00b2", "\u212a", "\u0663", ":", "/"]   # e-acute, superscript two, Kelvin sign, Arabic-Indic digit three
 VERSION_TS = 1700000123
 IDC = set(string.ascii_letters + string.digits + "-_")
 
@@ -135,18 +136,20 @@ def run(tier, seed, replay=None):
     depth = 5 if tier == "quick" else 7
     # shards: (prefix list, inner depth)
     if tier == "quick":
-        shards = [([""], 0)] + [([a], depth - 1) for a in ALPHA]
+        shards = [(ALPHA, [""], 0)] + [(ALPHA, [a], depth - 1) for a in ALPHA]
     else:
         singles = strings_upto(ALPHA, 1)
-        shards = [(singles, 0)] + [([a + b], depth - 2) for a in ALPHA for b in ALPHA]
+        shards = [(ALPHA, singles, 0)] + [(ALPHA, [a + b], depth - 2) for a in ALPHA for b in ALPHA]
+    # non-ASCII letters, digits and look-alikes (outside the documented alphabet: must all be rejected)
+    shards.append((ALPHA2, [""], 4 if tier == "quick" else 5))
 
     files = []
     seen_out = {}
     total = 0
     n_inter = 0
     lens = {}
-    for k, (prefixes, d) in enumerate(shards):
-        subs = strings_upto(ALPHA, d)
+    for k, (alpha, prefixes, d) in enumerate(shards):
+        subs = strings_upto(alpha, d)
         strs = [p + t for p in prefixes for t in subs]
         total += len(strs)
         rows = []
@@ -163,7 +166,7 @@ def run(tier, seed, replay=None):
             all_expr = clist([cstr(s) for s in strs])
         else:
             all_expr = "flat_map (fun p => map (app p) (strings_upto alpha %d%%nat)) %s" % (d, clist([cstr(p) for p in prefixes]))
-        defs = DEFS % {"alpha": clist([str(ord(c)) for c in ALPHA]), "all": all_expr, "ts": VERSION_TS}
+        defs = DEFS % {"alpha": clist([str(ord(c)) for c in alpha]), "all": all_expr, "ts": VERSION_TS}
         files.append((defs, [pack_row(r) for r in rows], rows, len(strs)))
     chk.coverage["evaluations"] = total
     chk.coverage["distinct_nontrivial"] = n_inter
@@ -171,8 +174,10 @@ def run(tier, seed, replay=None):
     chk.coverage["rule"] = (
         "every string over the symbol classes %r up to length %d, evaluated on is_name_valid, from_str (both prefix modes), "
         "from_relative_str, repr and the output path (without / with a version) on the implementation and on the Coq model; "
-        "non-trivial = accepted by at least one of the four functions" % (ALPHA, depth)
+        "non-trivial = accepted by at least one of the four functions; plus every string over %r (non-ASCII letters and digits) up to length %d; plus "
+        "multi-directory projects in which the same relative dependency string occurs in several COND files" % (ALPHA, depth, ALPHA2, 4 if tier == "quick" else 5)
     )
+    relative_resolution(chk)
     chk.coverage["distribution"]["length"] = {str(k): v for k, v in sorted(lens.items())}
 
     if chk.coq.model_ok:
@@ -208,6 +213,35 @@ def run(tier, seed, replay=None):
     else:
         chk.violation("correspondence", "model does not build: " + chk.coq.log[-400:], {"theorem_or_tie": "build of Model/Ident.vo", "log": chk.coq.log[-3000:]}, found_input=False)
     return chk.finish()
+
+
+def relative_resolution(chk):
+    """':name' dependencies resolve against the directory of the COND file that lists them -- also when the
+    same relative string occurs in several COND files of one invocation (real TaskIndex, real files)"""
+    import implrun
+    import pathlib
+    from conductor.parsing.task_index import TaskIndex
+    from conductor.task_identifier import TaskIdentifier
+
+    dirs = ["alpha", "beta", "alpha/deep", ""]
+    for order in (dirs, list(reversed(dirs))):
+        files = {}
+        for d in dirs:
+            files[(d + "/" if d else "") + "COND"] = 'run_command(name="setup", run="true")\nrun_command(name="run", run="true", deps=[":setup"])\n'
+        deps = ", ".join('"//%s:run"' % d for d in order)
+        files["top/COND"] = 'run_command(name="all", run="true", deps=[%s])\n' % deps
+        root = implrun.make_project(files)
+        idx = TaskIndex(pathlib.Path(root))
+        idx.load_transitive_closure(TaskIdentifier.from_str("//top:all"))
+        chk.coverage["evaluations"] += 1
+        for d in dirs:
+            t = idx.get_task(TaskIdentifier.from_str("//%s:run" % d))
+            got = [str(x) for x in t.deps]
+            want = ["//%s:setup" % d]
+            if got != want:
+                chk.violation("impl-violation", "the dependency ':setup' listed in %s/COND resolved to %s instead of %s" % (d or ".", got, want),
+                              {"input": {"files": files, "load": "//top:all"}, "impl_observation": got, "oracle_verdict": "':name' resolves against the listing file's directory"},
+                              match_key={"relative": ":setup"}, size=len(order))
 
 
 def oracle_one(chk, impl, r, seen_out=None):
